@@ -235,11 +235,11 @@ def make(nmax, lo, hi, allow_fallback, reach=False, topos=None, eval_fallback=No
             ex.check(False, "reach")
             return
         ex.observe("topology", show(forest))
-        region = known_region(forest)
+        ex.observe("formerly_failing_family", known_region(forest))  # the family repaired by the consumer-formula fix (kept for the record)
         g, c, p, b, v = vals["grid"], vals["consumer"], vals["producer"], vals["battery"], vals["ev"]
         ex.check(g == grid_true, "grid formula != sum of what is connected to the grid ")
-        ex.check(g == c + p + b + v, "grid != consumer + producer + battery + ev ", known=(KF, region))
-        ex.check(c == tot["L"], "consumer formula != total load ", known=(KF, region))
+        ex.check(g == c + p + b + v, "grid != consumer + producer + battery + ev ")
+        ex.check(c == tot["L"], "consumer formula != total load ")
         ex.check(p == tot["P"] + tot["C"], "producer formula != pv + chp ")
         ex.check(b == tot["B"], "battery formula != total battery power ")
         ex.check(v == tot["V"], "ev formula != total ev power ")
